@@ -144,7 +144,9 @@ def specRun (inputs : Env) (arms : List Fsm.Arm) : Nat → StateV → List State
 
 def runC17 (fields : List String) (obs : String) : String × String × String :=
   let bad := ("bad-case", "bad-case", "-")
-  match fields with
+  -- a trailing `form=…` field says how the arguments of the call are written (in place or through variables):
+  -- the run does not depend on it
+  match fields.filter (fun f => !f.startsWith "form=") with
   | [_, maxs, inputs, outk, declared, start, arms, args] =>
     let ins := (inputs.splitOn ",").mapM (fun d => match d.splitOn ":" with | [n, k] => (pIKind k).map (fun k => (nameCode n, k)) | _ => none)
     let decl := (declared.splitOn ",").map (fun d => (d.splitOn ":").headD "")
